@@ -226,7 +226,8 @@ def registry_state():
 
 def run_history(args):
     """Child body: run the libraries of a history one after the other in this interpreter."""
-    workdir, history, alphabet = args
+    workdir, history, alphabet = args[:3]
+    every = len(args) > 3 and args[3]
     import shroud.main
 
     state = None
@@ -237,15 +238,16 @@ def run_history(args):
         with open(os.path.join(d, "lib.yaml"), "w") as fp:
             fp.write(text)
         os.chdir(d)
-        shroud.main.main_with_args(ns_for("lib.yaml", "out", extra))
+        shroud.main.main_with_args(ns_for("lib.yaml", "out", extra, every_output=every))
     state = registry_state()
     return state
 
 
 def history_case(args):
-    workdir, history, alphabet, fresh = args
+    workdir, history, alphabet, fresh = args[:4]
+    every = len(args) > 4 and args[4]
     os.makedirs(workdir)
-    r = isolate.call_in_child(run_history, ((workdir, history, alphabet),), timeout=120)
+    r = isolate.call_in_child(run_history, ((workdir, history, alphabet, every),), timeout=120)
     err = None
     state = None
     if r.status != "ok":
@@ -262,11 +264,12 @@ def history_case(args):
 
 
 def fresh_output(args):
-    workdir, name, text, extra = args
+    workdir, name, text, extra = args[:4]
+    every = len(args) > 4 and args[4]
     os.makedirs(os.path.join(workdir, "out"))
     with open(os.path.join(workdir, "lib.yaml"), "w") as fp:
         fp.write(text)
-    r = isolate.call_in_child(run_history, ((workdir, [0], [(name, text, extra)]),), timeout=120)
+    r = isolate.call_in_child(run_history, ((workdir, [0], [(name, text, extra)], every),), timeout=120)
     if r.status != "ok":
         raise RuntimeError("fresh generation of %s failed: %s %s" % (name, r.exc, r.msg))
     tree = isolate.read_tree(os.path.join(workdir, "s0", "out"), skip_ext=C07_SKIP)
@@ -448,9 +451,20 @@ def run(ctx):
             # minimal witness key: the last library and the set of languages seen before it
             ctx.violation("history %s" % ">".join(names), "after %s the output of %s differs from a fresh process:\n%s" % (
                 ">".join(names[:-1]) or "(nothing)", names[-1], err), {"kind": "history", "history": names})
-    ctx.count(states=len(states), transitions=len(res), validated=len(res))
-    ctx.nontrivial_n(len(res))
-    ctx.part("histories", libraries=n, depth=depth, histories=len(res), distinct_registry_states=len(states))
+    # the same for every pair with each optional output file requested (--cfiles --ffiles --yaml-types --write-helpers
+    # --write-statements): the dumps of the helper and statement tables are output files like any other
+    fresh_e = dict(enumerate(isolate.pmap(fresh_output, [(os.path.join(base, "fe%d" % i), a[0], a[1], a[2], True) for i, a in enumerate(alphabet)], W)))
+    pairs = list(itertools.product(range(n), repeat=2))
+    eres = isolate.pmap(history_case, [(os.path.join(base, "he%d" % i), list(h), alphabet, fresh_e, True) for i, h in enumerate(pairs)], W, chunksize=2)
+    for history, state, err in eres:
+        ctx.outcome("history+files ok" if not err else "history+files differs")
+        if err:
+            names = [alphabet[i][0] for i in history]
+            ctx.violation("history+files %s" % ">".join(names), "with every optional output file requested, after %s the output of %s differs from a fresh process:\n%s" % (
+                names[0], names[1], err), {"kind": "history", "history": names, "every_output": True})
+    ctx.count(states=len(states), transitions=len(res) + len(eres), validated=len(res) + len(eres))
+    ctx.nontrivial_n(len(res) + len(eres))
+    ctx.part("histories", libraries=n, depth=depth, histories=len(res), distinct_registry_states=len(states), pairs_with_every_optional_file=len(eres))
     ctx.sample({"history": [alphabet[i][0] for i in histories[0]]})
 
     # ---- other dimensions (fresh interpreters)
